@@ -80,8 +80,96 @@ pub fn split_stream(bytes: &[u8], complete: bool) -> Result<(bool, Vec<RawFrame>
 
 pub fn decode(raw: &RawFrame) -> Option<AMQPFrame> {
     match parse_frame(&raw.bytes) {
-        Ok((rest, f)) if rest.is_empty() => Some(f),
+        Ok((rest, mut f)) if rest.is_empty() => {
+            fix_flags(&raw.bytes, &mut f);
+            Some(f)
+        }
         _ => None,
+    }
+}
+
+/// amq-protocol 1.4.0's *parser* looks flags with a hyphen in their spec name
+/// ("auto-delete", "if-unused", "if-empty", "no-ack", "no-local") up under the
+/// underscore name and therefore always reads them as false (its generator, which
+/// amiquip uses, is right; no server->client method has such a flag).  The broker
+/// decodes those bits itself, straight from the octets.
+fn fix_flags(bytes: &[u8], f: &mut AMQPFrame) {
+    use amq_protocol::protocol::basic::AMQPMethod as B;
+    use amq_protocol::protocol::exchange::AMQPMethod as Ex;
+    use amq_protocol::protocol::queue::AMQPMethod as Q;
+    // payload starts at 7: class(2) method(2) then arguments
+    let p = &bytes[7..bytes.len() - 1];
+    fn skip_shortstr(p: &[u8], at: usize) -> Option<usize> {
+        let n = *p.get(at)? as usize;
+        if at + 1 + n <= p.len() {
+            Some(at + 1 + n)
+        } else {
+            None
+        }
+    }
+    let bit = |b: u8, i: u8| b & (1 << i) != 0;
+    if let AMQPFrame::Method(_, class) = f {
+        match class {
+            AMQPClass::Exchange(Ex::Declare(d)) => {
+                // ticket(2) exchange type flags
+                if let Some(a) = skip_shortstr(p, 6).and_then(|a| skip_shortstr(p, a)) {
+                    if let Some(b) = p.get(a) {
+                        d.passive = bit(*b, 0);
+                        d.durable = bit(*b, 1);
+                        d.auto_delete = bit(*b, 2);
+                        d.internal = bit(*b, 3);
+                        d.nowait = bit(*b, 4);
+                    }
+                }
+            }
+            AMQPClass::Exchange(Ex::Delete(d)) => {
+                if let Some(a) = skip_shortstr(p, 6) {
+                    if let Some(b) = p.get(a) {
+                        d.if_unused = bit(*b, 0);
+                        d.nowait = bit(*b, 1);
+                    }
+                }
+            }
+            AMQPClass::Queue(Q::Declare(d)) => {
+                if let Some(a) = skip_shortstr(p, 6) {
+                    if let Some(b) = p.get(a) {
+                        d.passive = bit(*b, 0);
+                        d.durable = bit(*b, 1);
+                        d.exclusive = bit(*b, 2);
+                        d.auto_delete = bit(*b, 3);
+                        d.nowait = bit(*b, 4);
+                    }
+                }
+            }
+            AMQPClass::Queue(Q::Delete(d)) => {
+                if let Some(a) = skip_shortstr(p, 6) {
+                    if let Some(b) = p.get(a) {
+                        d.if_unused = bit(*b, 0);
+                        d.if_empty = bit(*b, 1);
+                        d.nowait = bit(*b, 2);
+                    }
+                }
+            }
+            AMQPClass::Basic(B::Consume(d)) => {
+                // ticket queue consumer-tag flags
+                if let Some(a) = skip_shortstr(p, 6).and_then(|a| skip_shortstr(p, a)) {
+                    if let Some(b) = p.get(a) {
+                        d.no_local = bit(*b, 0);
+                        d.no_ack = bit(*b, 1);
+                        d.exclusive = bit(*b, 2);
+                        d.nowait = bit(*b, 3);
+                    }
+                }
+            }
+            AMQPClass::Basic(B::Get(d)) => {
+                if let Some(a) = skip_shortstr(p, 6) {
+                    if let Some(b) = p.get(a) {
+                        d.no_ack = bit(*b, 0);
+                    }
+                }
+            }
+            _ => {}
+        }
     }
 }
 
